@@ -12,7 +12,17 @@ NamesFour  == {<<"a">>, <<"a", "b">>, <<"a", " ", "b">>, <<"a", "%", "2", "F">>}
 NamesSmall == {<<"a">>, <<"a", "b">>}
 NamesTiny  == {<<"a">>, <<"a", " ", "b">>, <<"a", "%", "2", "F">>}
 TypesAll   == {"dir", "file", "link"}
-BodiesAll  == {"", "x"}
+BodiesAll  == {<<>>, <<"x">>}
+BodyX      == {<<"x">>}
+BodiesRead == {<<>>, <<"x">>, <<"x", "y", "z">>}
+ReadPlain  == {"all"}
+BodiesTwo  == {<<>>, <<"x", "y", "z">>}
+NamesOne   == {<<"a">>}
+TypesDF    == {"dir", "file"}
+ModesFive  == {0, 420, 4095, 512, 3584}
+\* every 12-bit mode class: setuid / setgid / sticky alone and combined, with and without permission bits
+\* (0 = unset; 01000 02000 ... 07000 have NO permission bit; 0001, 0644, 0777)
+ModesSpecial == {hi * 512 + lo : hi \in 0..7, lo \in {0, 1, 420, 511}}
 NoMeta     == {NoTime}
 MtimesAll  == {NoTime, T(1700000000, 0), T(1700000000, 123456789), T(-86400, 5)}
 MtimesTwo  == {NoTime, T(1700000000, 123456789)}
